@@ -19,10 +19,10 @@ def run(ctx):
     ctx.assume(*_pipe.ASSUME)
     ctx.not_claimed(_pipe.OUTSIDE)
     C = []
-    ks = [5, 28, 30, 12, 24] + ([_pipe.pick(ctx, 1, len(P.HOLES))[0]] if q else list(range(len(P.HOLES))))
-    C += PC.text_holes(ctx, own, sorted(set(ks)), vis=(4,) if q else (0, 4, 8))
+    ks = [5, 28, 30] if q else list(range(len(P.HOLES)))
+    C += PC.text_holes(ctx, own, sorted(set(ks)), vis=(4,) if q else (0, 4, 8), timeout=900 if q else 2400)
     C += PC.spell_holes(ctx, own, [0, 3] if q else range(len(P.SPELL)))
-    C += PC.label_holes(ctx, own, _pipe.pick(ctx, 1, len(P.SKELS)) if q else range(len(P.SKELS)),
+    C += PC.label_holes(ctx, own, [9] + _pipe.pick(ctx, 1, len(P.SKELS)) if q else range(len(P.SKELS)),
                         positions=None, vis=(4,) if q else (0, 4, 8))
     C.append(xh.Cond('vp.harness.pipe', 'pipe_bytes', timeout=300, path_timeout=60, env={'VP_VERSIONS': '0,4,8'},
                      bound='4 byte skeletons with one symbolic ASCII byte inserted at offset 0..3, with / without UTF-8 BOM',
